@@ -17,6 +17,7 @@ from __future__ import annotations
 
 import ast
 import copy
+import hashlib
 from dataclasses import dataclass, replace
 from typing import Dict, FrozenSet, Iterable, List, Optional, Tuple
 
@@ -253,6 +254,14 @@ class PathAnalysis(flow.Analysis):
                 self.site[id(n)] = k
                 k += 1
         self.reassigned = self._reassigned_names(fn_node)
+        # definition sites inside a loop keep a plain name (termination); outside loops the term also
+        # carries a digest of its substituted defining text, so the same site reached with different
+        # environments yields different terms (flow-sensitive definitions)
+        self.in_loop = set()
+        for n in ast.walk(fn_node):
+            if isinstance(n, (ast.While, ast.For, ast.AsyncFor)):
+                for m in ast.walk(n):
+                    self.in_loop.add(id(m))
 
     @staticmethod
     def _reassigned_names(fn) -> set:
@@ -289,7 +298,10 @@ class PathAnalysis(flow.Analysis):
                 # facts are over terms, so nothing else to kill
                 return state.with_env(name, txt)
         if value is not None:
-            self.defs[term] = (how + subst_text(value, state), value)
+            text = how + subst_text(value, state)
+            if id(site_node) not in self.in_loop and not how.startswith("aug:"):
+                term = f"{term}{SEP}{hashlib.sha1(text.encode()).hexdigest()[:4]}"
+            self.defs[term] = (text, value)
         else:
             self.defs[term] = (how, site_node)
         return state.with_env(name, term)
